@@ -23,8 +23,27 @@ def make_sets(ctx, n, tag, with_corpus=True, allow=()):
     return sets
 
 
+BIGU = "@union\n" + "".join("uint8 o%d\n" % i for i in range(255)) + "uint16 w255\nuint8[<=3] a256\nint32 x257\nfloat32 f258\nuint8 o259\n@sealed\n"
+
+
+def big_union_set(ctx):
+    """A union with more than 256 options (a 16-bit tag), alone and nested.  Its own small set: the std::variant flavours of C++ cannot
+    take part (clang stops at 256 alternatives without -fbracket-depth and needs half a minute per translation unit with it)."""
+    d = ctx.sub("set_bigunion")
+    os.makedirs(os.path.join(d, "dsdl", "bigq"), exist_ok=True)
+    with open(os.path.join(d, "dsdl", "bigq", "BigU.1.0.dsdl"), "w") as f:
+        f.write(BIGU)
+    with open(os.path.join(d, "dsdl", "bigq", "BigUHolder.1.0.dsdl"), "w") as f:
+        f.write("uint8 pre\nbigq.BigU.1.0 u\nbigq.BigU.1.0[<=2] us\n@sealed\n")
+    roots = ["bigq"]
+    return ("bigunion", os.path.join(d, "dsdl"), roots, dsdlgen.read_all(os.path.join(d, "dsdl"), roots))
+
+
 def base_specs(tier_quick, index, want=("c", "cpp", "py")):
     """The option matrix for one set.  Quick rotates through the matrix with the set index; thorough takes all of it."""
+    if index == "bigunion":
+        return [s for s in (dict(lang="c", name="c_any", flags=[]), dict(lang="c", name="c_little", flags=["--target-endianness", "little"]),
+                            dict(lang="cpp", std="c++14", name="cpp14"), dict(lang="py", name="py")) if s["lang"] in want]
     c = [dict(lang="c", name="c_any", flags=[]),
          dict(lang="c", name="c_little", flags=["--target-endianness", "little"]),
          dict(lang="c", name="c_big_noassert", flags=["--target-endianness", "big"], asserts=False),
